@@ -13,13 +13,30 @@ def slots_from_broken(broken):
     return sorted(out)
 
 
-def corr_slots(per_quick, per_thorough, tables=None, want_spec=True):
+def family_slots(chk, families):
+    import json, os
+    sl = json.load(open(os.path.join(chk.LEAN, 'Z80', 'Proofs', 'slots.json')))
+    out = {}
+    for k, v in sl.items():
+        if v['family'] in families:
+            t, op = k.split('_')
+            out.setdefault(t, []).append(op)
+    return out
+
+
+def corr_slots(per_quick, per_thorough, tables=None, want_spec=True, family=None):
     def run(ctx, chk, broken):
         per = per_thorough if ctx.tier == 'thorough' else per_quick
         args = ['-seed', str(ctx.seed), '-per', str(per)]
         if tables:
             args += ['-tables', ','.join(tables)]
-        vectors = chk.gen_vectors('slots', args)
+        if family:
+            fams = family if isinstance(family, (list, tuple)) else [family]
+            vectors = ''
+            for t, ops in sorted(family_slots(chk, fams).items()):
+                vectors += chk.gen_vectors('slots', args + ['-tables', t, '-ops', ','.join(sorted(ops))])
+        else:
+            vectors = chk.gen_vectors('slots', args)
         # targeted search first: the slots named by broken obligations, many states each
         for (t, op) in slots_from_broken(broken)[:24]:
             tv = chk.gen_vectors('slots', ['-seed', str(ctx.seed + 7), '-per', '200', '-tables', t, '-ops', op])
@@ -41,6 +58,14 @@ def corr_slots(per_quick, per_thorough, tables=None, want_spec=True):
     return run
 
 
+HELPERS = ['Z80/Proofs/Helpers*.lean', 'Z80/Proofs/Arith.lean', 'Z80/Proofs/Bits.lean', 'Z80/Proofs/Basic.lean',
+           'Z80/Proofs/StepOf.lean']
+
+
+def fam(*names):
+    return [f'Z80/Proofs/Obl/{n}_*.lean' for n in names]
+
+
 PROPS = {
     'C01': {
         'targets': ['Z80.Props.C01'],
@@ -50,5 +75,19 @@ PROPS = {
                         'Impl.koron records the implementation-defined choices (bits 3/5 after SCF/CCF and BIT n,(HL); '
                         'undocumented flags of block I/O; DDCB counts three opcode fetches; byte order of word stores)'],
         'explanation': 'Gen.Step = Spec.executeOne Impl.koron for every state (1788 per-slot obligations + 4 prefix arms + 7 table theorems)',
+    },
+    'C03': {
+        'targets': ['Z80.Props.C03'],
+        'count': HELPERS + fam('Arith16') + ['Z80/Props/C03.lean'],
+        'correspond': corr_slots(40, 400, family='Arith16'),
+        'assumptions': ['operands are the register values of the state; flags compared as complete F bytes'],
+        'explanation': 'addU16/adcU16/sbcU16 = arithmetic spec for all 2^33 inputs (symbolic carry-vector proof); 40 slot obligations; Step-level theorems for every ss encoding',
+    },
+    'C16': {
+        'targets': ['Z80.Props.C16'],
+        'count': ['Z80/Props/C16.lean'],
+        'correspond': None,
+        'assumptions': ['the pointer receivers of SetFlag/ResetFlag/SetU16 are modelled as lenses on the CPU record'],
+        'explanation': 'symbolic bit-vector theorems over the definitions regenerated from flag.go and z80.go (all masks x all F; all 65536 register values)',
     },
 }
